@@ -232,7 +232,7 @@ def run_driver(root, i, modes='none,fail,cancel,failcancel', maxruns=200, seed=1
 # --------------------------------------------------------------------------------------------------------------------
 # TLC
 
-def tlc(work, spec, cfg, files=None, workers=1, timeout=1800, extra=None, java_opts=None, name=None):
+def tlc(work, spec, cfg, files=None, workers=1, timeout=1800, extra=None, java_opts=None, name=None, heap='4g'):
     """Run TLC on /verif/spec/<spec>.tla with <cfg> inside a private copy of the spec directory.
     files: {name: text} written next to the spec (trace / constant data read through the Json module)."""
     name = name or ('tlc-%s-%d' % (spec, int(time.time() * 1000) % 100000))
@@ -247,7 +247,7 @@ def tlc(work, spec, cfg, files=None, workers=1, timeout=1800, extra=None, java_o
     env = dict(os.environ)
     jtmp = os.path.join(d, 'jtmp')
     os.makedirs(jtmp, exist_ok=True)
-    env['JAVA_TOOL_OPTIONS'] = ('-Djava.io.tmpdir=%s ' % jtmp) + (java_opts or '')
+    env['JAVA_TOOL_OPTIONS'] = ('-Djava.io.tmpdir=%s -Xmx%s ' % (jtmp, heap)) + (java_opts or '')
     t0 = time.time()
     p = subprocess.run(cmd, cwd=d, env=env, capture_output=True, text=True)
     return {'rc': p.returncode, 'out': p.stdout, 'err': p.stderr, 'dir': d, 'wall': time.time() - t0}
